@@ -360,6 +360,14 @@ def unit_bounded_literals(eng, tier="quick"):
             if s[0] in "0179^":
                 texts.add(s)
     texts = sorted(texts)
+    # digits of other scripts (every code point of category Nd outside ASCII) are not digits of any radix spelling
+    import unicodedata
+    nd = [chr(c) for c in range(128, 0x110000) if unicodedata.category(chr(c)) == "Nd"]
+    if tier == "quick":
+        nd = [d for d in nd if unicodedata.digit(d) in (1, 8)]
+    foreign = [tmpl % d for d in nd for tmpl in ("%s", "1%s", "%s.", "^D%s", "^D1%s", "^X%s", "^O%s", "^B%s", "0x%s", "0o%s", "0b%s", "-^D%s")]
+    n_ascii = len(texts)
+    texts = texts + foreign
     code = r'''
 from pdpy11 import reports
 from pdpy11.parser import parse
@@ -391,9 +399,11 @@ result = out
                 bad.append((t, v, r))
         elif r[0] == "ok" and spec_is_plain_digits_with_8_9(t):
             bad.append((t, "8/9 must be an error", r))
+        elif r[0] == "ok" and not t.isascii():
+            bad.append((t, "a digit of another script is not a digit of this radix: must be an error", r))
     ob = dict(label="parser.number-radix-rules==spec.literal_value", kind="bounded", status="proved" if not bad else "failed", secs=0.0, path=[], witness=None, detail=str(bad[:5]),
               events=[], smt2=None, backend="cpython-native", unit="bounded-literals", func="parser.number (bounded stand-in)",
-              bound="every spelling of length <= %d over %r starting with a digit or '^' (%d spellings, %d of them numbers)" % (maxlen, alphabet, len(texts), n_num), cases=len(texts),
+              bound="every spelling of length <= %d over %r starting with a digit or '^' (%d spellings, %d of them numbers); %d non-ASCII decimal digits x 12 radix spellings" % (maxlen, alphabet, n_ascii, n_num, len(nd)), cases=len(texts),
               cfg=dict(kind="bounded"))
     return dict(unit="bounded-literals", func="parser.number (bounded stand-in)", paths=len(texts), obligations=[ob], wall=0.0)
 
